@@ -283,6 +283,21 @@ class Report:
         return rc
 
 
+def guarded(rep: Report, text, fn, *args, **kw):
+    """run one case; an exception escaping the case logic means the implementation behaved in a
+    way the check does not expect (e.g. a generated function is missing): reported with the case
+    as replay rather than crashing the whole check"""
+    try:
+        return fn(*args, **kw)
+    except (KeyboardInterrupt, SystemExit):
+        raise
+    except Exception as ex:  # noqa: BLE001
+        tb = traceback.format_exc()[-1500:]
+        rep.violation(f"the case could not be completed: {type(ex).__name__}: {str(ex)[:200]}",
+                      {"kind": "direct", "text": text, "exception": repr(ex)[:300], "traceback": tb})
+        return None
+
+
 def props_or_violation(rep: Report):
     """compile Props/<id>.v; a theorem that no longer checks is a violation (no failing input)"""
     ensure_built()
